@@ -163,6 +163,13 @@ class Interp:
         ob = Obligation(f"{self.unit}#{name}" if self.unit else name, list(st.pc), goal, props or self.props_default, "/".join(st.tags), meta)
         self.obligations.append(ob)
 
+    def cover(self, st: St, name: str, props=None) -> None:
+        """vacuity guard: this point must be reachable (the hypotheses collected so far must not be contradictory)"""
+        if not self.collect:
+            return
+        ob = Obligation(f"{self.unit}#reach:{name}", list(st.pc), z3.BoolVal(False), props or self.props_default, "/".join(st.tags), {"cover": "1"})
+        self.obligations.append(ob)
+
     def feasible(self, st: St, extra=None) -> bool:
         """sound pruning only: quantifier-free part of the path condition"""
         self.feas_checks += 1
